@@ -375,3 +375,23 @@ func genBots(seed int64, allow map[string]bool) *Scenario {
 	}
 	return b.sc
 }
+
+// genTimeout: one asked player never answers; after the hand's 17 s response time-out the hand moves on by itself (C11).
+func genTimeout(seed int64, allow map[string]bool) *Scenario {
+	b := newBuilder(seed, 7)
+	r := b.r
+	b.sc.Mode = "ct"
+	b.sc.N = 2 + r.Intn(5)
+	b.sc.Blind = []int64{1, int64(seed % 2), 0, 1, 2}
+	b.seatPlayers(2 + r.Intn(min(b.sc.N-1, 3)))
+	b.add(Op{Op: "start"})
+	hp := b.plan()
+	phases := []string{"blinds", "ready1", "ready2", "blinds", "ready3"}
+	if b.sc.Blind[1] > 0 {
+		phases = append(phases, "ante", "ante")
+	}
+	hp.WithholdAns = phases[int(seed)%len(phases)]
+	hp.WithholdMs = 17700
+	b.hand(hp)
+	return b.sc
+}
